@@ -330,8 +330,8 @@ Definition enc_faithful (sc : schema) (o : obj) : bool :=
 
 (* the bundled Timestamp / Duration classes have two plain integer fields (they are betterproto's own
    classes; msggen prints every schema as `builtin_classes ++ ...`, so this holds by construction) *)
+Definition is_zz (l : list aval) : bool :=
+  match l with [AInt z; AInt z'] => (z =? 0) && (z' =? 0) | _ => false end.
 Definition builtins_std (sc : schema) : bool :=
-  match empty_msg sc timestamp_cls, empty_msg sc duration_cls with
-  | AMsg [AInt 0; AInt 0] [], AMsg [AInt 0; AInt 0] [] => true
-  | _, _ => false
-  end.
+  is_zz (map empty_field (cfields (get_class sc timestamp_cls))) &&
+  is_zz (map empty_field (cfields (get_class sc duration_cls))).
